@@ -23,7 +23,7 @@ static int g_mode;
 
 /* ---- harness inputs (appear in counterexamples) */
 int in_state, in_tok, in_level, in_force, in_cfgflags, in_curtype, in_curflags, in_foundtype, in_foundflags, in_num_values, in_ignore;
-_Bool in_cur_null, in_pending, in_validcb, in_found, in_setopt_ok, in_addopt_ok, in_addval_ok, in_title_pending;
+_Bool in_cur_null, in_pending, in_validcb, in_found, in_setopt_ok, in_addopt_ok, in_addval_ok, in_title_pending, in_forced_opt;
 int in_valid_ret, in_call_ret, in_rec_result, in_nargs;
 char in_text[3];
 
@@ -67,7 +67,7 @@ static _Bool inv(int state, cfg_opt_t *opt, char *comment, char *opttitle, int i
 static int g_cur_reset_entry;
 static int h_cur_reset_at_entry(void) { return g_cur_reset_entry; }
 _Bool in_dup_fail;
-#define KF_COMMENT_CASE (in_tok == CFGT_COMMENT && in_state >= 1 && in_state <= 9)
+#define KF_COMMENT_CASE 0    /* (was a recorded finding until the fix "accept comments between any two tokens") */
 
 /* translate the reference action list into expected monitor events and compare */
 static void check_actions(void)
@@ -145,7 +145,7 @@ static void check_continue(void)
 		CHECK("C12,C15", in_state != 10 || *p_state == 10 || *p_comment == NULL || *p_comment == h_comment, "no new annotation is picked up while skipping");
 		if (in_state != 12) CHECK("C12", g_nev == 0, "skipping performs no lookup, store, callback or release");
 		else CHECK("C12", g_nev <= 1 && (g_nev == 0 || g_ev[0].kind == EV_RECURSE), "skipping performs no action except entering the discarding sub-parser");
-		CHECK("C12,C06", g_diag == g_diag0 + (in_tok == 0 ? 1 : 0) + ((in_state == 12 && in_rec_result == SP_RET_ERROR) ? 1 : 0), "skipping delivers no diagnostic of its own");
+		CHECK("C12,C06", g_diag == g_diag0, "a skipping step that continues delivers no diagnostic");
 		CHECK("C01,C02,C07", inv(*p_state, *p_opt, *p_comment, *p_opttitle, *p_ignore, *p_num_values, p_funcopt), "INV: the loop invariant holds again at the loop head");
 		return;
 	}
@@ -259,7 +259,7 @@ void h_parse_step(void)
 	in_state = nondet_int(); in_tok = nondet_int(); in_level = nondet_int(); in_force = nondet_bool() ? 10 : -1;
 	__CPROVER_assume(in_level >= 0 && in_level < 1000000);
 	__CPROVER_assume(in_tok == 0 || in_tok == EOF || in_tok == '{' || in_tok == '}' || in_tok == '(' || in_tok == ')' || in_tok == '=' || in_tok == '+' || in_tok == ',' || in_tok == CFGT_STR || in_tok == CFGT_COMMENT);
-	in_cur_null = nondet_bool(); in_pending = nondet_bool(); in_title_pending = nondet_bool();
+	in_cur_null = nondet_bool(); in_pending = nondet_bool(); in_title_pending = nondet_bool(); in_forced_opt = in_force == -1 && nondet_bool();
 	in_num_values = nondet_int(); in_ignore = nondet_int(); in_tokens = nondet_int();
 	__CPROVER_assume(in_tokens >= 0 && in_tokens < (1 << 30) && in_num_values >= 0 && in_num_values <= in_tokens);
 	in_found = nondet_bool(); in_setopt_ok = nondet_bool(); in_addopt_ok = nondet_bool(); in_addval_ok = nondet_bool();
@@ -289,6 +289,7 @@ void h_parse_step(void)
 
 	/* reference step */
 	g_si.state = in_state; g_si.tok = in_tok; g_si.level = in_level; g_si.skipmode = in_force == 10;
+	g_si.section_body = in_level > 0 && in_force == -1 && !in_forced_opt;     /* default values are parsed at level 1 too, but with their option forced */
 	g_si.ctx_comments = (in_cfgflags & CFGF_COMMENTS) != 0; g_si.ctx_ignore_unknown = (in_cfgflags & CFGF_IGNORE_UNKNOWN) != 0; g_si.ctx_keystrval = (in_cfgflags & CFGF_KEYSTRVAL) != 0;
 	g_si.cur_null = in_cur_null; g_si.cur_is_sec = in_curtype == CFGT_SEC; g_si.cur_is_func = in_curtype == CFGT_FUNC;
 	g_si.cur_list = (in_curflags & CFGF_LIST) != 0; g_si.cur_title = (in_curflags & CFGF_TITLE) != 0;
@@ -302,16 +303,12 @@ void h_parse_step(void)
 	spec_step(&g_si, &g_so);
 	g_diag0 = 0;
 
-	rc = cfg_parse_internal(&h_cfg, in_level, in_force, NULL);
+	rc = cfg_parse_internal(&h_cfg, in_level, in_force, in_forced_opt ? &h_cur : NULL);
 
 	/* the function returned: the step ended the parse */
 	{
 		if (KF_COMMENT_CASE) {
 			KFCHECK("C15-comment-token-only-in-name-state", "C15", 0, "a comment between two tokens inside an item never ends the parse");
-		} else if (in_state == 0 && in_tok == EOF && in_level > 0 && in_force == -1) {
-			/* a section body (nested activation without forced option) that meets the end of input: the language wants the
-			 * closing brace; the function answers "end of section" for both - recorded finding */
-			KFCHECK("C01-unterminated-section-accepted", "C01,C06", rc == STATE_ERROR && g_diag >= 1, "end of input inside a section body is rejected with a diagnostic");
 		} else if (in_state >= 10) {
 			/* the discarding sub-parser ended the activation: only the statement-level facts are demanded (see check_continue) */
 			CHECK("C12", rc == STATE_ERROR || (rc == STATE_CONTINUE && in_force == 10), "the skipper ends an activation only by rejecting or, in a skipped section, by handing back to its caller");
@@ -391,7 +388,7 @@ SCRIPT(assign, "", T_S, '=', T_S, T_S, '=', T_S)
 #define SCRIPT_TXT_list "u", "=", "{", "1", ",", "2", "}", "i", "=", "5"
 SCRIPT(list, "", T_S, '=', '{', T_S, ',', T_S, '}', T_S, '=', T_S)
 #define SCRIPT_TXT_append "u", "+=", "{", "1", "}", "i", "=", "5"
-SCRIPT(append, "C12-skipper-append", T_S, '+', '{', T_S, '}', T_S, '=', T_S)
+SCRIPT(append, "", T_S, '+', '{', T_S, '}', T_S, '=', T_S)
 #define SCRIPT_TXT_call "u", "(", "1", ",", "2", ")", "i", "=", "5"
 SCRIPT(call, "", T_S, '(', T_S, ',', T_S, ')', T_S, '=', T_S)
 #define SCRIPT_TXT_emptysec "u", "{", "}", "i", "=", "5"
